@@ -30,6 +30,7 @@ def check(run):
     run.attempt(precedence, run, p)
     run.attempt(declared, run, p)
     run.attempt(titles, run, p)
+    run.attempt(datefmt, run, p)
     from .common import gotcha_rule
     n = gotcha_rule(run, 'C16-ACCUM', p, ['tdda.serial.pandasio', 'tdda.serial.csvw', 'tdda.serial.reader', 'tdda.serial.base'],
                     'what several columns contribute to one read_csv argument is accumulated, not overwritten or dropped: no '
@@ -434,6 +435,37 @@ def fields_metadata_eval(p, columns, extensions=False):
     except (Unsupported, Raised) as e:
         raise AnalysisError('get_fields_metadata is not evaluable: %s' % e)
     return [dict(x.attrs) for x in o.attrs['fields']], msgs
+
+
+def datefmt(run, p):
+    """a date format written the CSVW way reaches pandas in the strftime form, whichever spelling names the column's type"""
+    run.rule('C16-DATEFMT', 'a date / time format given in CSVW notation (dd/MM/yyyy HH:mm:ss ...) is handed on translated, for every '
+                            'spelling of the column type that denotes a date or a date-time (date, datetime, dateTime; as a datatype '
+                            'object with base + format, or as a plain name with a column-level format): get_fields_metadata evaluated; '
+                            'an untranslated format makes pandas fall back to guessing, month first')
+    f = p.method('CSVWMetadata', 'get_fields_metadata')
+    n = 0
+    for fmt in ('dd/MM/yyyy HH:mm:ss', 'dd.MM.yyyy', 'yyyy-MM-dd'):
+        seen = {}
+        for spelling in ('date', 'datetime', 'dateTime'):
+            for form, col in (('datatype object', {'name': 'd', 'datatype': {'base': spelling, 'format': fmt}}),
+                              ('column-level format', {'name': 'd', 'datatype': spelling, 'format': fmt})):
+                fields, msgs = fields_metadata_eval(p, [col])
+                if len(fields) != 1:
+                    continue
+                got = fields[0].get('format')
+                if form == 'column-level format' and got is None:
+                    continue                  # a column-level format is not read for this form: nothing to translate
+                seen[(spelling, form)] = got
+        # the spellings are siblings: one translation for all of them, and it is a translation (not the CSVW text handed on)
+        vals = sorted(set(map(str, seen.values())))
+        for (spelling, form), got in sorted(seen.items()):
+            n += 1
+            ok = len(vals) == 1 and got != fmt
+            run.ob('C16-DATEFMT', '%s::%s::%s:%s:%s' % (f.rel, f.short, spelling, form, fmt), ok,
+                   'type %s (%s) with format %r is loaded with format %r%s' % (spelling, form, fmt, got, '' if len(vals) == 1 else
+                                                                                '; the other spellings give %s' % [v for v in vals if v != str(got)]), fn=f)
+    run.floor('C16-DATEFMT', n, 9)
 
 
 def titles(run, p):
